@@ -9,3 +9,6 @@ import RaftWal.Props.C07
 #print axioms RaftWal.C07.flag_after_file_sync_refuted
 #print axioms RaftWal.C07.flag_before_file_sync_refuted
 #print axioms RaftWal.C07.flag_policy_from_source
+#print axioms RaftWal.C07.dstep_ack
+#print axioms RaftWal.C07.acknowledged_delete_is_durable
+#print axioms RaftWal.C07.delete_idempotent_refuted
